@@ -51,13 +51,19 @@ def inf_hook(ctx: Context, fn: FunctionInfo, env: dict):
                 if v is False:
                     return EMPTY
                 return frozenset({"inf"})
+            def elems(args):
+                # finite view / single element of a stream of streams
+                return any("inf-elems" in rec(a) for a in args)
+
             if fname in ("next", "anext"):
-                return EMPTY  # one element, not the stream
+                # one element, not the stream (itself a stream when the
+                # source is a stream of streams)
+                return frozenset({"inf"}) if elems(e.args[:1]) else EMPTY
             if fname == "islice" and len(e.args) >= 2:
-                return EMPTY
+                return frozenset({"inf-elems"}) if elems(e.args[:1]) else EMPTY
             if fname == "zip" and any(isinstance(a, ast.Call) and isinstance(
                     a.func, ast.Name) and a.func.id == "range" for a in e.args):
-                return EMPTY
+                return frozenset({"inf-elems"}) if elems(e.args) else EMPTY
             if fname in ("take", "head") and e.args:
                 return EMPTY
         return None
@@ -153,9 +159,19 @@ def run(ctx: Context, rep) -> None:
                     k in ast.unparse(ann) for k in ("Iterable", "Iterator")) \
                     and fn in helper_functions(ctx):
                 init[p] = frozenset({"inf"})
+                # Iterable[Iterable[T]]: the elements are streams themselves
+                inner = ann.slice if isinstance(ann, ast.Subscript) else None
+                if inner is not None and any(
+                        k in ast.unparse(inner)
+                        for k in ("Iterable", "Iterator")):
+                    init[p] = frozenset({"inf", "inf-elems"})
                 n_sources += 1
         tf = TagFlow(cfg, init, hook=inf_hook(ctx, fn, env),
-                     iter_elem=lambda t: frozenset(x for x in t if x != "inf"))
+                     iter_elem=lambda t: frozenset({"inf"}) if "inf-elems" in t
+                     else frozenset(x for x in t if x != "inf"),
+                     store_elem=lambda t: frozenset(
+                         ({"inf-elems"} if "inf" in t else set()) |
+                         {x for x in t if x not in ("inf", "inf-elems")}))
         for node in cfg.calls():
             args = eager_sink_arg(ctx, fn, node.ast)
             for a in args:
